@@ -1627,6 +1627,8 @@ class Engine(CondMixin, Interp):
                 continue
             st2 = st.fork()
             self.learn(test, True, st2.data)
+            if not (isinstance(val, ast.Constant) and val.value is None):
+                st2.data.add("notnone", self.term(val, st2.data))  # an entry of the table (a function / bound method), not None
             new = ast.copy_location(ast.Assign(targets=stmt.targets, value=val), stmt)
             new._dispatched = True
             new._origin = getattr(stmt, "_origin", None)
@@ -1635,7 +1637,16 @@ class Engine(CondMixin, Interp):
             outs.extend(sub if sub is not None else [(st2, "next")])
             if r is True:
                 return outs
-        if default is not None:
+        feasible_default = True
+        kt = self._unshift(self.term(key, st.data), "0")[0] if hasattr(self, "_unshift") else self.term(key, st.data)
+        num = self.numeric(self.term(key, st.data), st.data)
+        if num is not None and all(isinstance(k_, ast.Constant) and isinstance(k_.value, int) for k_ in table.keys):
+            lo, hi, ax, _ = num
+            if hi < INF and all(v in {k_.value for k_ in table.keys} for v in range(lo, hi + 1)):
+                feasible_default = False
+                if ax:
+                    self.note_axiom(st.data, "AX-FOREST", f"{self.term(key, st.data)} in [{lo},{hi}] is always an entry of the dispatch table")
+        if default is not None and feasible_default:
             st2 = st.fork()
             for k_ in table.keys:
                 self.learn(ast.Compare(left=key, ops=[ast.Eq()], comparators=[k_]), False, st2.data)
